@@ -814,6 +814,9 @@ func (g *TxGen) nodeActor(t *rapid.T, a *Actor) *Actor {
 func (g *TxGen) proposal(t *rapid.T) *governance.ProposalContent {
 	pc := &governance.ProposalContent{Metadata: &governance.ProposalMetadata{Title: "verif proposal", Description: "generated"}}
 	propKind := rapid.IntRange(0, 7).Draw(t, "propKind")
+	if strings.Contains(g.Profile, "gov") && rapid.IntRange(0, 3).Draw(t, "propOtherModule") == 0 {
+		propKind = 8 + rapid.IntRange(0, 1).Draw(t, "propOtherKind")
+	}
 	if strings.Contains(g.Profile, "gov") && rapid.Bool().Draw(t, "propCancelPending") {
 		if ups, err := g.V.Gov.PendingUpgrades(g.V.ctx); err == nil && len(ups) > 0 {
 			propKind = 0 // a pending upgrade exists: cancellations of it are what makes the pending-upgrade records matter
@@ -891,6 +894,57 @@ func (g *TxGen) proposal(t *rapid.T) *governance.ProposalContent {
 			v4 := q(uint64(100_001 + rapid.IntRange(0, 5).Draw(t, "overUnity")))
 			ch.MinCommissionRate = &v4
 		}
+		pc.ChangeParameters = &governance.ChangeParametersProposal{Module: staking.ModuleName, Changes: cbor.Marshal(ch)}
+	case 8:
+		// parameters of the other modules, changed in the middle of a history to other ordinary values: what was
+		// elected, stored or set aside under the old values meets the new ones
+		g.propNote = "+other-values"
+		switch rapid.IntRange(0, 2).Draw(t, "otherModule") {
+		case 0:
+			maxV := rapid.IntRange(1, 4).Draw(t, "newMaxValidators")
+			minV := 1
+			ch := scheduler.ConsensusParameterChanges{MaxValidators: &maxV, MinValidators: &minV}
+			if rapid.Bool().Draw(t, "newDistribution") {
+				d := scheduler.VotingPowerDistribution(rapid.SampledFrom([]scheduler.VotingPowerDistribution{scheduler.VotingPowerDistributionLinear, scheduler.VotingPowerDistributionSqrt}).Draw(t, "vpd"))
+				ch.VotingPowerDistribution = &d
+			}
+			pc.ChangeParameters = &governance.ChangeParametersProposal{Module: scheduler.ModuleName, Changes: cbor.Marshal(ch)}
+		case 1:
+			exp := beacon.EpochTime(rapid.IntRange(1, 8).Draw(t, "newMaxNodeExp"))
+			ch := registry.ConsensusParameterChanges{MaxNodeExpiration: &exp}
+			if rapid.Bool().Draw(t, "newMaxDeployments") {
+				n := uint8(rapid.IntRange(1, 5).Draw(t, "maxDeployments"))
+				ch.MaxRuntimeDeployments = &n
+			}
+			pc.ChangeParameters = &governance.ChangeParametersProposal{Module: registry.ModuleName, Changes: cbor.Marshal(ch)}
+		default:
+			mm, mi := uint32(rapid.IntRange(0, 40).Draw(t, "newMaxMsgs")), uint32(rapid.IntRange(0, 40).Draw(t, "newMaxInMsgs"))
+			age, past := uint64(rapid.IntRange(0, 10).Draw(t, "newEvidenceAge")), uint64(rapid.IntRange(0, 10).Draw(t, "newPastRoots"))
+			ch := roothash.ConsensusParameterChanges{MaxRuntimeMessages: &mm, MaxInRuntimeMessages: &mi, MaxEvidenceAge: &age, MaxPastRootsStored: &past}
+			pc.ChangeParameters = &governance.ChangeParametersProposal{Module: roothash.ModuleName, Changes: cbor.Marshal(ch)}
+		}
+	case 9:
+		// further staking parameters with ordinary values: debonding interval, reward factors, commission floor, allowances
+		g.propNote = "+other-values"
+		ch := staking.ConsensusParameterChanges{}
+		if rapid.Bool().Draw(t, "chDebonding") {
+			d := beacon.EpochTime(rapid.IntRange(1, 4).Draw(t, "newDebonding"))
+			ch.DebondingInterval = &d
+		}
+		if rapid.Bool().Draw(t, "chRewardFactors") {
+			a, b := q(uint64(rapid.IntRange(0, 3).Draw(t, "newFactorSigned"))), q(uint64(rapid.IntRange(0, 3).Draw(t, "newFactorProposed")))
+			ch.RewardFactorEpochSigned, ch.RewardFactorBlockProposed = &a, &b
+		}
+		if rapid.Bool().Draw(t, "chMinCommission") {
+			c := q(uint64(rapid.SampledFrom([]int{0, 1, 50_000, 100_000}).Draw(t, "newMinCommission")))
+			ch.MinCommissionRate = &c
+		}
+		if rapid.Bool().Draw(t, "chAllowances") {
+			n := uint32(rapid.IntRange(0, 3).Draw(t, "newMaxAllowances"))
+			ch.MaxAllowances = &n
+		}
+		esc := rapid.Bool().Draw(t, "newAllowEscrowMessages")
+		ch.AllowEscrowMessages = &esc
 		pc.ChangeParameters = &governance.ChangeParametersProposal{Module: staking.ModuleName, Changes: cbor.Marshal(ch)}
 	case 3:
 		vp := beacon.EpochTime(rapid.IntRange(1, 3).Draw(t, "newVoting"))
